@@ -37,12 +37,14 @@ def shape_blog(cfg):
         Article = type('Article', (Base,), dict(
             __tablename__='article',
             id=sa.Column(sa.Integer, primary_key=True, autoincrement=False),
-            a=sa.Column(sa.Integer), b=sa.Column(sa.Integer), x=sa.Column(sa.Integer),
+            a=sa.Column(sa.Integer),
+            b=(sa.Column(sa.Integer, default=7) if cfg.get('defaults') else sa.Column(sa.Integer)),
+            x=sa.Column(sa.Integer),
             **vopts(art_extra)))
         Tag = type('Tag', (Base,), dict(
             __tablename__='tag',
             id=sa.Column(sa.Integer, primary_key=True, autoincrement=False),
-            a=sa.Column(sa.Integer),
+            a=(sa.Column(sa.Integer, server_default='3') if cfg.get('defaults') else sa.Column(sa.Integer)),
             article_id=sa.Column(sa.Integer, sa.ForeignKey('article.id')),
             article=sa.orm.relationship(Article, backref='tags'),
             **vopts({'end_transaction_column_name': 'valid_to', 'transaction_column_name': 'txid'}
